@@ -20,8 +20,8 @@ C = {
          "PARTIAL: the Kaiser leakage bound behind 'A^2/2' is swept, not proved (kernel homogeneity is proved for all detrend modes, KernelLin.v)", T_GEN_A),
  "C09": ("coherence in [0,1] from Cauchy-Schwarz, coherence 1 when |XY|^2=XX*YY, swap symmetry, GyyCx+GyyRx=Gyy, GyySx=Gyy(1-coh), auto-in-pair — proved on the regenerated table.", "7/C09",
          "Cauchy-Schwarz is proved for the statistics returned by the regenerated cross kernels (KernelCS.v); float coherence may exceed 1 by rounding (1e-12 allowed)", T_GEN_A),
- "C10": ("Each *_dev/*_error of the regenerated table equals the Bendat-Piersol expression; dev = estimate x error; 1/sqrt(n) scaling; phase error >= magnitude error.", "7/C10",
-         "PARTIAL: upper bound pi/2 (Jordan's inequality), the g2->1 limit and the Monte-Carlo agreement are checked numerically only", T_GEN_A),
+ "C10": ("Each *_dev/*_error of the regenerated table equals the Bendat-Piersol expression; dev = estimate x error; 1/sqrt(n) scaling; magnitude error <= phase error <= pi/2 x magnitude error (Jordan's inequality proved), both vanishing at coherence 1.", "7/C10",
+         "PARTIAL: agreement with the observed spread over independent realisations is statistical (Monte-Carlo sweep in the thorough tier), not a theorem", T_GEN_A),
  "C11": ("Empirical variance/deviation and their spectral-unit scaling proved on the regenerated table; M2=0 for one segment on the regenerated reducer; M2 = population variance checked against per-segment kernel calls.", "7/C11",
          "agreement with analytic deviations for Gaussian data is statistical (not proved)", T_GEN_A),
  "C05": ("The dispatch of _lpsd_core/compute_single_bin is re-extracted from source on every run (T3) and checked exhaustively in Coq (48 paths: kernel of the order/mode/backend, argument order, omega from f, DFT-even Kaiser); cache transparency and band alignment proved; recorded kernel calls of real analyses compared with the model; independent reference on sampled bins.", "7/C05",
